@@ -53,6 +53,11 @@ pub fn c12_nesting_body<S: Src>(s: &mut S) {
     check!("C12:recursive-equals-unrolling-output", same(&out, &want));
     cover!("cover:depth-1", out == Some(Tr::tok(1)));
     cover!("cover:reject", out.is_none());
+    // the drop of a recursive parser is the subject of c12_clone_drop; here it is skipped: CBMC cannot see that the
+    // inner handle is the weak one and unrolls the Rc drop glue through the whole grammar type to the recursion bound
+    // (measured: 20 M variables / 92 M clauses with the drop, see DESIGN)
+    drop(r);
+    core::mem::forget(p);
 }
 
 /// @harness props=C12:Q,C13:Q,C20:T n=3 err=Cheap timeout=900
@@ -128,6 +133,8 @@ pub fn c12_mutual_body<S: Src>(s: &mut S) {
     check!("C12:mutual-recursion-equals-unrolling", same(&out, &want));
     cover!("cover:accept-nested", out.is_some() && n == 3);
     cover!("cover:reject", out.is_none());
+    drop(r);
+    core::mem::forget(a);
 }
 
 crate::harnesses! {
@@ -135,5 +142,5 @@ crate::harnesses! {
     c12_clone_drop [5] = c12_clone_drop_body;
 }
 crate::harnesses_stub_caller! {
-    c12_mutual [5] = c12_mutual_body;
+    c12_mutual [9] = c12_mutual_body;
 }
